@@ -25,7 +25,7 @@ ASSUMPTIONS = ["mpmath table of Mie coefficients (60 digits)",
 # floors measured on the unchanged tree (thorough) in brackets
 TOLERANCES = {"energy": 1e-12,                 # [1.7e-16]
               "cabs-real-index": 1e-10,        # [2.3e-15] of Cext
-              "optical-theorem": 1e-6,         # [2.9e-8]
+              "optical-theorem": 1e-10,        # [3.5e-13 since b5c7276]
               "integral-csca": 2e-6,           # [5.8e-8]
               "integral-g": 1e-6,              # [6.1e-9]
               "series": 1e-8,                  # [1.6e-10]
@@ -324,7 +324,7 @@ def _run_sphere(case, ck):
                 ot = 4 * math.pi / k ** 2 * s.real
                 e = abs(ot - cext) / abs(cext)
                 ck.metric("optical-theorem", e)
-                ck.true("optical-theorem", e <= 1e-6,
+                ck.true("optical-theorem", e <= 1e-10,
                         "Cext = %r but 4pi/k^2 Re %s(0) = %r (rel %.2e; m=%r"
                         " x=%r n_med=%r wl=%r)" % (cext, name, ot, e, m, x,
                                                    nmed, wl))
@@ -391,7 +391,7 @@ def _run_layered(case, ck):
     ot = 4 * math.pi / k ** 2 * S0[0, 0].real
     e = abs(ot - cext) / cext
     ck.metric("optical-theorem", e)
-    ck.true("optical-theorem", e <= 1e-6, "layered n=%r r=%r: Cext %r vs "
+    ck.true("optical-theorem", e <= 1e-10, "layered n=%r r=%r: Cext %r vs "
             "optical theorem %r" % (ns, rs, cext, ot))
     ic, ig, _ = _gl_integrals(Mie(), sph, nmed, wl, len(a), k)
     ck.trans += 2
